@@ -77,9 +77,12 @@ def eigContract {N : Nat} (κ : Mat N N Fix) (nb : Nb N) (d : Nat) (rsk : Fix)
       let lo_ := evi[k - d - 1]!
       if !(tolPow 12 * cs ≤ hi_ - lo_) then return .degenerate i
       let σ := (hi_ + lo_) / (2 : Nat)
-      match countBelow k C none σ (tolPow 16 * cs) with
+      -- eigenvalues of C above σ = eigenvalues of −C below −σ: at most the returned count (sound direction)
+      let negC := C.map fun r => r.map fun x => (0 : Fix) - x
+      match (if k ≤ 20 then countBelow k negC none ((0 : Fix) - σ) (tolPow 16 * cs)
+             else countBelowFast k negC ((0 : Fix) - σ) (tolPow 16 * cs)) with
       | none => return .bad s!"inertia-singular sample {i}"
-      | some c => if c ≠ k - d then return .bad s!"eigvecs-not-top-d sample {i}: {k - c} eigenvalues above the gap"
+      | some c => if c ≠ d then return .bad s!"eigvecs-not-top-d sample {i}: {c} eigenvalues above the gap"
   return .ok
 
 /-- neighbour contract under the kernel distance `κ_ii − 2κ_ij + κ_jj` -/
